@@ -109,7 +109,8 @@ func ruleWhoMayWrite(p *Prog, r *Report, id string) {
 		n++
 		encl := "<package init>"
 		if cs.Encl != nil {
-			encl = cs.Encl.Name()
+			// a private helper that only writeFiles calls counts as part of writeFiles
+			encl = p.anchorFor(cs.Encl, []string{"goverter.writeFiles"})
 		}
 		site := encl + "/" + name
 		pos := p.PosStr(cs.Call.Pos())
@@ -487,6 +488,48 @@ func c17O5(p *Prog, r *Report, id string) {
 	}
 	wf := findCalls(info, rng.Body, "os", "", "WriteFile")
 	md := findCalls(info, rng.Body, "os", "", "MkdirAll")
+	orderFn := sf
+	if len(wf) == 0 && len(md) == 0 {
+		// the pair lives in a private helper called once per entry: map its parameters back to the call's arguments
+		ast.Inspect(rng.Body, func(n ast.Node) bool {
+			call, ok := n.(*ast.CallExpr)
+			if !ok {
+				return true
+			}
+			f, ok := calleeObj(info, call).(*types.Func)
+			if !ok || f.Exported() || !p.IsOwn(f.Pkg()) {
+				return true
+			}
+			h := p.Func(funcKey(f))
+			if h == nil || h.Decl.Body == nil || !p.inRegion("goverter.writeFiles", h) {
+				return true
+			}
+			hw := findCalls(info, h.Decl.Body, "os", "", "WriteFile")
+			hm := findCalls(info, h.Decl.Body, "os", "", "MkdirAll")
+			if len(hw) != 1 || len(hm) != 1 {
+				return true
+			}
+			wf, md = hw, hm
+			if hsf := p.SSAFunc(h); hsf != nil {
+				orderFn = hsf
+			}
+			sig := h.Obj.Type().(*types.Signature)
+			argOf := map[types.Object]ast.Expr{}
+			for i := 0; i < sig.Params().Len() && i < len(call.Args); i++ {
+				argOf[sig.Params().At(i)] = call.Args[i]
+			}
+			inner := isObjIdent
+			isObjIdent = func(e ast.Expr, o types.Object) bool {
+				if id0, ok := ast.Unparen(e).(*ast.Ident); ok {
+					if a, isParam := argOf[info.ObjectOf(id0)]; isParam {
+						return inner(a, o)
+					}
+				}
+				return inner(e, o)
+			}
+			return false
+		})
+	}
 	if len(wf) != 1 || len(md) != 1 {
 		r.Bad("goverter.writeFiles/calls", pos, fmt.Sprintf("expected exactly one os.WriteFile and one os.MkdirAll in the loop body, found %d and %d", len(wf), len(md)))
 		return
@@ -502,8 +545,11 @@ func c17O5(p *Prog, r *Report, id string) {
 		r.Bad("goverter.writeFiles/MkdirAll arg", p.PosStr(md[0].Pos()), "os.MkdirAll is not called with filepath.Dir(range key)")
 	}
 	// order + success return after loop (SSA)
-	mds := callsIn(sf, false, isObj("os", "", "MkdirAll"))
-	wfs := callsIn(sf, false, isObj("os", "", "WriteFile"))
+	mds := callsIn(orderFn, false, isObj("os", "", "MkdirAll"))
+	wfs := callsIn(orderFn, false, isObj("os", "", "WriteFile"))
+	if orderFn != sf {
+		errRuleOn(p, r, ssaKeyOf(p, orderFn), nil, nil)
+	}
 	if len(mds) == 1 && len(wfs) == 1 {
 		mb, wb := mds[0].(ssa.Instruction), wfs[0].(ssa.Instruction)
 		if mb.Block().Dominates(wb.Block()) && (mb.Block() != wb.Block() || instrIndex(mb) < instrIndex(wb)) {
@@ -524,6 +570,14 @@ func c17O5(p *Prog, r *Report, id string) {
 		}
 	}
 	errRuleOn(p, r, "goverter.writeFiles", nil, nil)
+}
+
+// ssaKeyOf returns the index key of the source function behind fn.
+func ssaKeyOf(p *Prog, fn *ssa.Function) string {
+	if o, ok := fn.Object().(*types.Func); ok {
+		return funcKey(o)
+	}
+	return fn.String()
 }
 
 func c17O6(p *Prog, r *Report) {
@@ -1121,8 +1175,12 @@ func c15R6(p *Prog, r *Report, id string) {
 		return
 	}
 	isCwdPrefix := func(cond ssa.Value) bool {
+		// `rest, ok := strings.CutPrefix(field, "@cwd/")`: the condition is the second result
+		if ex, isEx := cond.(*ssa.Extract); isEx && ex.Index == 1 {
+			cond = ex.Tuple
+		}
 		c, ok := cond.(*ssa.Call)
-		if !ok || ssaCalleeObj(c) == nil || !isFunc(ssaCalleeObj(c), "strings", "", "HasPrefix") {
+		if !ok || ssaCalleeObj(c) == nil || !(isFunc(ssaCalleeObj(c), "strings", "", "HasPrefix") || isFunc(ssaCalleeObj(c), "strings", "", "CutPrefix")) {
 			return false
 		}
 		k, ok := c.Call.Args[1].(*ssa.Const)
